@@ -47,7 +47,9 @@ func DriveOracle(out io.Writer, seed int64, runs, length int) (map[string]int, e
 				}
 			}
 			var e M
-			if len(host) == 0 || r.Intn(6) == 0 {
+			if r.Intn(25) == 0 {
+				e = M{"type": "SetClient", "signer": pick(r, []string{"e1", "e1", "x"}), "client": pick(r, []string{"cl1", "", "other"})}
+			} else if len(host) == 0 || r.Intn(6) == 0 {
 				set := M{}
 				n := 1 + r.Intn(7)
 				for _, j := range r.Perm(7)[:n] {
